@@ -22,9 +22,17 @@ CLAIMS = {
          "against the assumed ANTLR contract (shared with C17). Bounded (the bulk): printer -> real compiler round trip over enumerated and random specifications (TTC arithmetic, set / collect / "
          "transitive / subtype / variable expressions, multiplicities, meta), include layouts incl. same include string in different directories, name-sharing associations, coreLang .mar. "
          "The visitor methods are not under contract.", '4 C04, 5'),
- 'C05': ('other', "Deductive: get_associated_assets_by_field_name under the assumed object model of python_jsonschema_objects. Bounded: all histories of <=3 API operations (valid and invalid "
-         "arguments) against an abstract reference model, random histories to 12 operations. Known findings are listed in known_findings.txt.", '4 C05'),
- 'C06': ('exploration', "Bounded only: all languages of a 2-type family + random 3-type languages; generated classes, defaults, rejections. Enforcement by python_jsonschema_objects is an assumption.", '4 C06'),
+ 'C05': ('other', "Deductive: wf_model (ownership/separation of every list, unique ids and names, index sets = ids/names of the live assets, back-references <-> association membership, "
+         "type buckets, entry points only on live assets, one tuple per asset) is a representation invariant: every public mutator of Model and AttackerAttachment (add_asset, remove_asset, "
+         "add_association incl. _validate_association and association_exists_between_assets, remove_association, remove_asset_from_association, add_attacker, remove_attacker, add_entry_point, "
+         "remove_entry_point + lemma EP-WF) is verified to preserve it, to change the abstract view by exactly its delta and to leave the pre-state region unchanged when it raises; "
+         "get_associated_assets_by_field_name == field navigation, lookups return the member with the key. All under the ASSUMED object model of python_jsonschema_objects with identity equality "
+         "(the floor shows that assumption to be false for nameless assets: known findings), add_asset requires an asset that is not yet in the model, add_attacker requires entry points on model "
+         "assets (known finding), termination of the name-uniquification loop is not proved. Bounded: all histories of <=3 API operations against an abstract reference model, random to 12.", '4 C05, 9.2(12)'),
+ 'C06': ('other', "Deductive: the rejection half that lives in model.py - _validate_association returns normally iff the association is new, every member is an asset of the model, no asset repeats "
+         "inside a field and no (left, right) pair is already linked by an association of the same class (association_exists_between_assets inspects EVERY association of that class); "
+         "add_association raises iff not valid and leaves the model unchanged then. Bounded: the generated classes (classes_factory), defaults, type / multiplicity / range rejections, which are "
+         "enforced by python_jsonschema_objects (assumed third party): all languages of a 2-type family + random 3-type languages.", '4 C06'),
  'C07': ('other', "Deductive (small part): Model.get_asset_by_id, which _from_dict uses to resolve the member ids of associations and entry points (returns a member with that id, None iff none). "
          "Bounded (the bulk): API-built and hand-written models x {json, yml, yaml}, save/load/modify/save/load sequences on non-canonical paths, defenses by name incl. 0.0 on Enabled defaults; "
          "json / yaml are external. Known finding: two attackers with one id.", '4 C07'),
